@@ -214,16 +214,30 @@ class Env:
             else:
                 other = h.RamContext(h.SERVER_ID, h.CLIENT_ID, 3, echo=os.urandom(8), initialised=False)
             val, how = h.learn_echo(other, self.peer, 2**39)
+            self.probe_outcome(kind, how)
             if val is None:
                 raise _Inconc("could not obtain a stale Echo value from a sibling %s context: %s" % (kind, how))
             self.stale_values[kind] = val
         return self.stale_values[kind]
 
+    def probe_outcome(self, kind, how):
+        """The Echo-less probe that starts the B.1.2 exchange is itself an arrival on an
+        uninitialised window."""
+        self.rep.seen("uninit_error_type", how)
+        self.rep.monitor("uninit_rejects")
+        if how == "accepted":
+            self.rep.violation(
+                "uninit/accepted-without-fresh-echo/none",
+                "request accepted while the replay window was uninitialised without a fresh Echo (none)",
+                {"server": kind, "history": [["g", 2**39, "none"]], "note": "the Echo-less probe request of the harness' own 4.01 exchange was accepted"},
+                {"cls": "exh-uninit", "server": kind, "W": 3, "start": "uninit", "hist": [["g", 0, "none"]]},
+            )
+
     def learn(self, srv):
         """Obtain this instance's fresh Echo through the real exchange. Needs an uninitialised window."""
         h = self.h
         val, how = h.learn_echo(srv.ctx, self.peer, 2**39 + 1)
-        self.rep.seen("uninit_error_type", how)
+        self.probe_outcome(srv.kind, how)
         if val is None:
             self.rep.count("echo_not_obtainable")
         srv.echo = val
